@@ -352,7 +352,7 @@ def main():
         rs = ranges_of(t)
         per = []
         for i, r in enumerate(rs):
-            nw, cbd = (calls[r[6]][0], calls[r[6]][1]) if do_weights else (0, None)     # r[6] = creation index = encoder call number
+            nw, cbd = (calls[r[6]][0], calls[r[6]][1]) if do_weights else (0, 0)     # r[6] = creation index = encoder call number
             per.append(r + (nw, cbd))
         return rs, per
 
@@ -404,7 +404,7 @@ def main():
         return "wl_spec " + " ".join(map(str, toks))
 
     # ---- generate stub cases ----------------------------------------------------------------
-    n_cases = 6000 if T else 700
+    n_cases = 12000 if T else 1500
     cases = []
     # the recorded witness first (DESIGN.md section 8 #11), then its neighbours
     wit = {"acc": Accelerator.Ethos_U65_512, "kind": "conv", "ifm": "int8", "shape": (1, 1, 4, 8), "dil": 1, "wdt": "int8",
@@ -690,7 +690,8 @@ def main():
 
     seq_same_reqs, seq_meta = [], []
     cache_model_reqs, cache_real = [], []
-    n_worlds = 120 if T else 25
+    scale_only = []      # (args, scale tensor) of weights-only hits
+    n_worlds = 400 if T else 60
     for wi in range(n_worlds):
         cache.clear()
         base = gen_case({"acc": rng.choice([Accelerator.Ethos_U65_512, Accelerator.Ethos_U55_128, Accelerator.Ethos_U65_256])})
@@ -775,6 +776,9 @@ def main():
             filler = entries.get(wcc)
             if pre is None:
                 entries[wcc] = toks
+            if outcome == "hit-weights":
+                # the bias tensor's consumer list changes with later variants: take the prep request now
+                scale_only.append((args, st, prep_inputs(op, bb), real_prep(arch, op, bb)))
             if want is not None:
                 seq_same_reqs.append(f"wl_same {got} {want}")
                 seq_meta.append((wi, v, outcome, toks, filler, args))
@@ -799,6 +803,33 @@ def main():
             ck.violation("correspondence cacheOutcomes vs the look-up at the top of encode_weight_and_scale_tensor broken",
                          {"correspondence": "wl_cache", "first_difference_at": k, "model": mo[max(0, k - 2):k + 3], "implementation": cache_real[max(0, k - 2):k + 3],
                           "request": cache_model_reqs[k]}, found_input=False)
+    # scale-only tensors (weights-only hits): model correspondence with do_weights = False + Spec on the real tensor
+    so_prep = ck.model([x[2] for x in scale_only])
+    so_enc, so_real, so_spec = [], [], []
+    for (a, st, _pl, rp), po in zip(scale_only, so_prep):
+        arch, op, w, b, kernel, bc, offs = a
+        if not po.startswith("ok") or po != rp:
+            ck.count("scale_only_prep_mismatch")
+            continue
+        qs = parse_qs(po)
+        so_enc.append(encode_line(arch, w, b, bc, offs, qs, False, []))
+        rs, per = real_encode_str(st, [], False)
+        so_real.append("ok %s %d %d %d %s" % (hexs(st.buffer), st.double_buffer_sizes[0], st.double_buffer_sizes[1], len(rs),
+                                             " ".join(" ".join(map(str, p)) for p in per)))
+        so_spec.append(spec_line(arch, op, w, b, kernel, bc, offs, st, qs, False))
+    so_out = ck.model(so_enc)
+    so_dis = [j for j in range(len(so_enc)) if so_out[j] != so_real[j]]
+    so_sv = ck.model(so_spec)
+    so_fail = [j for j, o in enumerate(so_sv) if o != "ok"]
+    ck.count("scale_only_tensors", len(so_enc))
+    for j in so_fail[:3]:
+        ck.violation(f"Lean Spec rejects a scale-only tensor (weights-only cache hit): {so_sv[j][:200]}",
+                     {"spec_request": so_spec[j][:3000], "verdict": so_sv[j][:500]})
+    if so_dis and not so_fail:
+        j = so_dis[0]
+        ck.violation(f"correspondence encodeTensor (do_weights = False) vs the scale-only path broken on {len(so_dis)} inputs",
+                     {"correspondence": "wl_encode", "request": so_enc[j][:2000], "model": so_out[j][:1000], "implementation": so_real[j][:1000]}, found_input=False)
+
     same_out = ck.model(seq_same_reqs)
     stale = [j for j, o in enumerate(same_out) if o != "1"]
     diff_reqs = [f"wl_reqdiff {seq_meta[j][3]} {seq_meta[j][4]}" for j in stale if seq_meta[j][4] is not None]
@@ -995,7 +1026,7 @@ def main():
     # (d) a single (not double) weight buffer with several depth slices
     compile_and_check("single_buffer_560_vs_2864", overflow_net(), ["--accelerator-config", "ethos-u55-64", "--arena-cache-size", "4000", "--optimise", "Performance"])
     # (e) random weight-heavy networks: scheduler-produced depth slices, incl. two cores
-    n_nets = 160 if T else 22
+    n_nets = 400 if T else 45
     for it in range(n_nets):
         r = _random.Random(ck.seed * 7919 + it)
         b = netgen.B(r, f"wnet{it}", r.choice(["int8", "int8", "uint8", "int16"]))
